@@ -371,7 +371,7 @@ template <class D> struct ObjHarness : Harness {
   void add(const DescT& d) { table.push_back(d); }
   void finish() { by_name.clear(); for (auto& d : table) by_name[d.name] = &d; }
   void warmup() override { fault_install_hooks(); }
-  int child_seconds() const override { return 20; }
+  int child_seconds() const override { return 60; }   // CPU seconds (kit_cpu_deadline)
   std::vector<std::pair<std::string, long> > shrink_knobs() const override { return { { "pool", 1 } }; }
 
   static bool prop_uses_twin(const std::string& p) { return p == "C01" || p == "C04" || p == "C05" || p == "C09" || p == "C10"; }
